@@ -168,6 +168,16 @@ func (ff fileFootprints) serializeTo(dst []byte) []byte {
 	return dst
 }
 
+// isScannedAspect returns true if [as] may come from the scan of a font file:
+// the style is always defined, the weight comes from an uint16 and is never zero,
+// and the stretch is one of the Stretch constants.
+// In particular, it returns false for NaN and negative values.
+func isScannedAspect(as font.Aspect) bool {
+	return (as.Style == font.StyleNormal || as.Style == font.StyleItalic) &&
+		1 <= as.Weight && as.Weight <= math.MaxUint16 &&
+		font.StretchUltraCondensed <= as.Stretch && as.Stretch <= font.StretchUltraExpanded
+}
+
 func (ff *fileFootprints) deserializeFrom(src []byte) error {
 	n, err := deserializeString(&ff.path, src)
 	if err != nil {
@@ -181,6 +191,12 @@ func (ff *fileFootprints) deserializeFrom(src []byte) error {
 	ff.footprints, err = deserializeFootprints(src[n:])
 	if err != nil {
 		return err
+	}
+	// reject corrupted aspects, which the matching functions do not support
+	for _, fp := range ff.footprints {
+		if !isScannedAspect(fp.Aspect) {
+			return errors.New("invalid fileFootprints (corrupted aspect)")
+		}
 	}
 	return nil
 }
